@@ -42,9 +42,13 @@ template<> std::string parseV<std::string>(const std::string &t) {
     return t.substr(1);
 }
 
+// Eq = void selects the library's DEFAULT equality (the default template argument itself is part of what is checked)
+template<typename T, typename Eq> struct ObsOf { using type = tulz::Observable<T, Eq>; };
+template<typename T> struct ObsOf<T, void> { using type = tulz::Observable<T>; };
+
 template<typename T, typename Eq>
 struct Uni final : IUni {
-    using O = tulz::Observable<T, Eq>;
+    using O = typename ObsOf<T, Eq>::type;
     using Sub = typename O::Subject_t::Subscription_t;
     O obs;
     std::deque<Sub> handles;
@@ -91,7 +95,17 @@ struct Uni final : IUni {
         }
         if (op == "assign") {
             T v = parseV<T>(t.at(1));
-            if (nops % 2) obs = v; else obs = std::move(v);
+            // the operand of operator=(V&&) need not be a T: every third assignment passes an operand of another type whose
+            // conversion to T yields exactly v (lossy for the arithmetic instantiations) — it must behave like assigning v
+            switch (nops % 3) {
+                case 0: obs = v; break;
+                case 1: obs = std::move(v); break;
+                default:
+                    if constexpr (std::is_same_v<T, std::string>) obs = v.c_str();
+                    else if constexpr (std::is_integral_v<T>) obs = (double) v + (v >= 0 ? 0.25 : -0.25);
+                    else obs = (long double) v + (long double) v * 1e-19L;
+                    break;
+            }
             return finish("-");
         }
         if (op == "apply") {
@@ -158,9 +172,9 @@ int main() {
             if (t.at(0) == "reset") { uni.reset(); out = "ok"; }
             else if (t.at(0) == "new") {
                 const std::string &k = t.at(1);
-                if (k == "long") uni = std::make_unique<Uni<long, std::equal_to<long>>>(parseV<long>(t.at(2)));
+                if (k == "long") uni = std::make_unique<Uni<long, void>>(parseV<long>(t.at(2)));
                 else if (k == "dy") uni = std::make_unique<Uni<double, NearEq>>(parseV<double>(t.at(2)));
-                else if (k == "str") uni = std::make_unique<Uni<std::string, std::equal_to<std::string>>>(parseV<std::string>(t.at(2)));
+                else if (k == "str") uni = std::make_unique<Uni<std::string, void>>(parseV<std::string>(t.at(2)));
                 out = uni ? "ok" : "bad-op";
             } else if (!uni) out = "!PRECOND";
             else out = uni->run(t);
